@@ -105,6 +105,7 @@ SpkLayouts == [
   B4 |-> Lay({"pl", "ph"}, {}, {"A1"}, {PR("p1", ""), PR("p2", "a")}),
   B5 |-> Lay({"pl", "ph"}, {}, {"A10", "A11", "A12", "A13", "A14"}, {PR("p1", ""), PR("p2", "")}),
   B6 |-> Lay({"pl", "ph"}, {}, {"A10", "A11"}, {PR("p1", ""), PR("p2", "a")}),
+  B7 |-> Lay({"pl", "ph"}, {}, {"A10", "A11"}, {PR("p1", "a"), PR("p2", "")}),
   BZ |-> Lay({"pz"}, {}, {"A6"}, {PR("p1", "")}),
   \* layer 2 and BGP
   C1 |-> Lay({"pw"}, {"X1"}, {"A7"}, {PR("p1", "")}),
